@@ -42,6 +42,7 @@ type Case struct {
 	Steps        [][]any // steps performed (for the replay file)
 	byTag        int
 	closeEntered bool
+	CloseBy      string // how the connection ends: "" (client closes), "oversize", "badframe"
 	nwire        int
 	Trace        []Event // internal trace lines (act, args, post)
 	rng          *rand.Rand
@@ -262,13 +263,33 @@ func (k *Case) Do(step []any) error {
 		}
 		k.nwire++
 	case "ClientClose":
-		c.Close(k.ch)
+		switch k.CloseBy {
+		case "oversize": // the server drops the connection itself: a header announcing more than msize
+			c.SendRaw(k.ch, []byte{0xff, 0xff, 0xff, 0x7f, wire.Tstat}, nil)
+			c.Emit(Event{"ev": "cclose", "c": k.ch.Idx, "by": "oversize"})
+			k.ch.Closed = true
+			k.ch.Writing = false
+		case "badframe": // a frame that does not parse
+			c.SendRaw(k.ch, []byte{7, 0, 0, 0, wire.Tstat, 1, 0}, nil)
+			c.Emit(Event{"ev": "cclose", "c": k.ch.Idx, "by": "badframe"})
+			k.ch.Closed = true
+			k.ch.Writing = false
+		default:
+			c.Close(k.ch)
+		}
 		k.Closed = true
 	case "CloseEnter":
 		err = c.GrantCmd("close_enter", 0, k.ch.Idx, Cmd{})
 		k.closeEntered = err == nil
 	case "CloseDestroy":
 		err = c.GrantCmd("close_destroy", 0, k.ch.Idx, Cmd{})
+	case "CbReturn": // a FidDestroy / ConnClosed callback returns (not a Srv9P action of its own)
+		for _, p := range c.Parked() {
+			if p.Point == step[1].(string) && p.Conn == k.ch.Idx {
+				return c.GrantP(p, Cmd{})
+			}
+		}
+		return fmt.Errorf("no callback parked")
 	default:
 		return fmt.Errorf("unknown action %s", act)
 	}
@@ -372,6 +393,8 @@ func (k *Case) enabledSteps() [][]any {
 			}
 		case "close_destroy":
 			out = append(out, []any{"CloseDestroy"})
+		case "cb_destroy", "cb_closed":
+			out = append(out, []any{"CbReturn", p.Point, p.Req})
 		}
 	}
 	if k.ch.Writing && !k.Closed {
@@ -608,6 +631,12 @@ func RunCase(t *testing.T, lg *go9p.Logger, cfg Cfg, seed int64, fn func(k *Case
 		c.Emit(Event{"ev": "quiet", "parked": c.ParkedKeys()})
 		if !k.Closed {
 			_ = k.Do([]any{"ClientClose"})
+			k.Complete(2000)
+		}
+		if k.CloseBy != "" {
+			// the server ended the connection; now the client goes away too
+			_ = k.ch.cli.Close()
+			c.Wait()
 			k.Complete(2000)
 		}
 		c.Wait()
